@@ -23,6 +23,7 @@ struct FacOracle
     ld op_err_factor = 1;  // condition number of the linear system the user's operator solves in working precision (1 for plain products)
     long restarts = 0;       // EvCompressed events so far (since the last EvInit)
     long fail_restarts = 0;  // restarts at the time of the first violation
+    ld min_pos_beta = std::numeric_limits<ld>::infinity();  // smallest positive ||f|| advertised at any event so far
     long checks = 0;
     // running maxima in units of (1+r) n eps ||OP|| etc. (calibration record)
     ld worst_fac = 0, worst_orth = 0, worst_vf = 0, worst_hess = 0;
@@ -147,6 +148,8 @@ struct FacOracle
         char buf[96];
         std::snprintf(buf, sizeof buf, "%d(k=%ld,i=%ld,b=%.3Lg) ", v.event, v.k, v.i, v.beta);
         trail += buf;
+        if (v.beta > 0 && (v.event == EvInit || v.event == EvExtended || v.event == EvCompressed || (v.event == EvExpandBasis && v.aux > 0)))
+            min_pos_beta = std::min(min_pos_beta, (ld) v.beta);
         if (trail.size() > 400)
             trail = "... " + trail.substr(trail.size() - 300);
         switch (v.event)
